@@ -5,6 +5,7 @@
   no check of the harness depends on it.
 -/
 import Spydr.Verilog.RoundTripLeafJ
+import Spydr.Verilog.RoundTripHierI
 import Spydr.Verilog.RoundTripDesign
 namespace Spydr.Verilog.Elab
 open Spydr.Verilog
@@ -210,6 +211,57 @@ def reportFullBB (n : Text.WNet) : Bool × String :=
     | some (_, T) =>
       if rowsFitB n T (leafDefs n ((composeOrder n).drop 1)) then (true, "in")
       else (false, "out:rowsFit:an-instance-row-is-not-as-wide-as-the-port")
+
+/-- `c04_ast_hier` (hierarchical netlists, up to the syntax trees): (inside?, explanation) -/
+def reportHier (n : Text.WNet) : Bool × String :=
+  match topOf n with
+  | none => (false, "out:no-top")
+  | some (kT, T) =>
+    if (composeOrder n).head? != some kT then (false, "out:top-not-written-first") else
+    let Rs := leafDefs n ((composeOrder n).drop 1)
+    if fragHier n T Rs then (true, "in") else
+    let works := T :: Rs.filter (fun r => !isPrim r)
+    let why : Option String :=
+      if (T :: Rs).any (fun r => r.lib == "SDN_VERILOG_ASSIGNMENT") then some "assign-statements"
+      else if works.any (fun r => r.params.isSome) then some "module-parameters"
+      else orElseS ((Rs.filter isPrim).findSome? (fun r => (whyLeaf r).map (fun s => "leaf:" ++ s))) fun _ =>
+        orElseS (works.findSome? (fun W => orElseS ((W.ports.findSome? (whyAstPort W)).map (fun s => "astOf:" ++ s)) fun _ =>
+          orElseS ((W.insts.findSome? (whyAstInst n W)).map (fun s => "astOf:" ++ s)) fun _ =>
+          (whyFragTop n W).map (fun s => "fragTop:" ++ s))) fun _ =>
+        if !decide ((T.name :: Rs.map (·.name)).Nodup) then some "module-names-not-distinct"
+        else match astOf n T, Rs.mapM (astAny n) with
+          | some m, some Ms =>
+            if (buildHier m.toI Ms).isNone then
+              some "buildHier:the-pure-reader-refuses(a-module-not-instantiated-before-its-declaration,row-wider-than-the-first-instance's,…)"
+            else none
+          | _, _ => some "astOf"
+    (false, "out:" ++ why.getD "unexplained")
+
+/-- `c04_text_hier` (hierarchical netlists, from characters): inside `c04_ast_hier` plus the text / token / piece clauses -/
+def reportHierText (n : Text.WNet) : Bool × String :=
+  match reportHier n with
+  | (false, why) => (false, why)
+  | (true, _) =>
+    match topOf n with
+    | none => (false, "out:no-top")
+    | some (kT, T) =>
+      let ks := (composeOrder n).drop 1
+      if fragStructH n T kT ks then (true, "in") else
+      match astOf n T, (leafDefs n ks).mapM (astAnyP n) with
+      | some m, some Ps =>
+        let why : Option String :=
+          if !topTextB n T then some "topText:empty-parameter-list"
+          else if !(leafDefs n ks).all (anyTextB n) then some "anyText:a-later-module(attributes-or-parameters-on-a-primitive,empty-parameter-list)"
+          else orElseS ((whyTok m.toI).map (fun s => "tokOK:" ++ s)) fun _ =>
+            orElseS (Ps.findSome? (fun P => match P with
+              | .work mm => (whyTok mm.toI).map (fun s => "tokOK:" ++ s)
+              | .leaf lf => if leafOK lf then none else some "leafOK:tokens-of-a-leaf")) fun _ =>
+            orElseS (((filePH n m Ps).findSome? pieceWhy).map (fun s => "piece:" ++ s)) fun _ =>
+            if !adjOK (filePH n m Ps) then some "adjOK:a-word-runs-into-the-next-piece"
+            else if !Text.isCommentTok ("//netlist name: " ++ Text.fixName n.name) then some "netlist-name-comment"
+            else none
+        (false, "out:" ++ why.getD "unexplained")
+      | _, _ => (false, "out:astOf")
 
 /-! ### C06: the source text, through the syntax trees the parser returns -/
 
